@@ -294,11 +294,29 @@ def entry_points(chk, F, rid="R-ENTRY"):
                   "every truncated label ends) or is abandoned inside a scope-opening construct leaves the builder's "
                   "scope stack as deep as it found it: the entry point restores it, or the builder exposes no scope "
                   "that outlives the block")
-    for fn in F.fns("parse_XTA") + F.fns("parseProperty"):
-        if not any(c.get("name") == "utap_parse" for c in calls(fn["body"])):
+    # the obligations are named after the two entry points; each is judged on the function that calls utap_parse() for
+    # it - itself, or the shared body it hands the work to (`parse_buffer`)
+    funnels_ = [f for f in F.functions.values() if f.get("body") is not None and f.get("name") != "utap_parse" and
+                (f.get("file") or "").endswith(("parser.y", "parser.cpp")) and
+                any(c.get("name") == "utap_parse" for c in calls(f["body"]))]
+    if not funnels_:
+        raise AnalysisBroken("no function calls utap_parse()")
+    for entry in F.fns("parse_XTA") + F.fns("parseProperty"):
+        if entry.get("body") is None:
             continue
+        if any(c.get("name") == "utap_parse" for c in calls(entry["body"])):
+            fn = entry
+        else:
+            via = [f for f in funnels_ if any(c.get("fn") == f["q"] or c.get("name") == f["name"] for c in calls(entry["body"]))]
+            if not via or not (entry.get("static") or (entry.get("file") or "").endswith(("parser.y", "parser.cpp"))):
+                continue
+            if not any(p_.get("name") for p_ in entry.get("params", []) if "ParserBuilder" in (p_.get("ct") or p_.get("t") or "")):
+                continue
+            if len(entry.get("params", [])) not in (2, 4):
+                continue
+            fn = via[0]
         how = entry_restores(F, fn, "frames")
-        chk.ob(rid, "%s/%d|scope-depth" % (fn["name"], len(fn["params"])), how is not None,
+        chk.ob(rid, "%s/%d|scope-depth" % (entry["name"], len(entry["params"])), how is not None,
                "%s does not restore the builder's scope depth after utap_parse(): a quantifier cut short by the end of "
                "a label (`forall (k : int[0,1]) k + `) leaves its scope pushed, and every later block of the document "
                "is parsed inside it" % fn["q"], "%s:%s" % (fn["file"], fn["line"]),
@@ -336,9 +354,24 @@ def entry_restores(F, fn, member):
     if not pc:
         return None
     pl = pc[0].get("l") or 0
-    if any(c.get("name") in depth_of and (c.get("l") or 0) < pl for c in calls(fn["body"])) and \
-            any(c.get("name") in closers and c.get("args") and (c.get("l") or 0) > pl for c in calls(fn["body"])):
-        return "explicit calls"
+    # events in the order of the entry point's own text; a call of a file-local helper (`depth_of(*builder)`,
+    # `settle(*builder, before, failed)`) counts for what the helper does, at the line of the call
+    def helper_does(c, names):
+        for t in F.fns(c.get("fn") or ""):
+            if t.get("body") is not None and not t.get("cls") and (t.get("file") or "") == (fn.get("file") or ""):
+                if any(x.get("name") in names for x in calls(t["body"])):
+                    return True
+        return False
+    before = any((c.get("name") in depth_of or helper_does(c, depth_of)) and (c.get("l") or 0) < pl for c in calls(fn["body"]))
+    after = [c for c in calls(fn["body"]) if (c.get("l") or 0) > pl and
+             ((c.get("name") in closers and c.get("args")) or helper_does(c, closers))]
+    if before and after:
+        # on the way out by an exception too: a handler that closes and rethrows, if utap_parse() stands in a try block
+        tries = [t for t in walk(fn["body"]) if t.get("k") == "try" and any(c.get("name") == "utap_parse" for c in calls(t.get("body") or {}))]
+        handled = all(any(any((c.get("name") in closers) or helper_does(c, closers) for c in calls(h)) for h in (t.get("handlers") or []))
+                      for t in tries)
+        if handled:
+            return "explicit calls"
     for d in walk(fn["body"]):
         if d.get("k") != "decl":
             continue
